@@ -17,6 +17,7 @@ CONSTANTS
   MaxChans,
   OffSet,       \* byte offsets (fc) / bit offsets (dl) explored
   SizeSet,      \* scaler type sizes in bytes
+  Split,        \* BOOLEAN: also channels whose two scalers live in different raw buffers (of equal length)
   GenPrint
 
 VARIABLES cfg
@@ -29,21 +30,29 @@ Sum(s) == SumF(s, Len(s))
 ByteOff(kind, off) == IF kind = "dl" THEN off \div 8 ELSE off
 Fits(kind, sc, w) == ByteOff(kind, sc.off) + sc.sz <= w
 
-\* a channel: [buf, scalers]; one or two scalers in the same buffer at increasing offsets
+\* a channel: [buf, scalers]; every scaler names its raw buffer (`buf' of the channel = buffer of its first scaler).
+\* Two scalers share a buffer (at increasing offsets) or, with Split, lie in two different buffers of equal length.
 ScalerSet == [off : OffSet, sz : SizeSet]
 FitSet(kind, w) == {t \in ScalerSet : Fits(kind, t, w)}
+In(b, t) == [off |-> t.off, sz |-> t.sz, buf |-> b]
 ChanChoices(kind, widths) ==
-  UNION {{[buf |-> b, scalers |-> <<s>>] : s \in FitSet(kind, widths[b])}
-         \cup {[buf |-> b, scalers |-> <<s, t>>] : s \in FitSet(kind, widths[b]), t \in FitSet(kind, widths[b])}
+  UNION {{[buf |-> b, scalers |-> <<In(b, s)>>] : s \in FitSet(kind, widths[b])}
+         \cup {[buf |-> b, scalers |-> <<In(b, s), In(b, t)>>] : s \in FitSet(kind, widths[b]), t \in FitSet(kind, widths[b])}
+         \cup (IF Split THEN UNION {{[buf |-> b, scalers |-> <<In(b, s), In(b2, t)>>] :
+                                        s \in FitSet(kind, widths[b]), t \in FitSet(kind, widths[b2])}
+                                     : b2 \in DOMAIN widths \ {b}}
+                ELSE {})
          : b \in DOMAIN widths}
 
 RECURSIVE SeqsOf(_, _)
 SeqsOf(S, n) == IF n = 0 THEN {<<>>} ELSE {Append(s, x) : s \in SeqsOf(S, n - 1), x \in S}
 
+Bufs(ch) == {ch.scalers[s].buf : s \in DOMAIN ch.scalers}
 WellFormed(c) ==
   /\ \A i \in DOMAIN c.chans : Len(c.chans[i].scalers) = 2 =>
-        c.chans[i].scalers[1].off < c.chans[i].scalers[2].off
-  /\ \A b \in DOMAIN c.widths : \E i \in DOMAIN c.chans : c.chans[i].buf = b       \* every buffer is used
+        LET a == c.chans[i].scalers[1]  z == c.chans[i].scalers[2] IN
+        IF a.buf = z.buf THEN a.off < z.off ELSE c.rows[a.buf] = c.rows[z.buf]     \* one length per channel
+  /\ \A b \in DOMAIN c.widths : \E i \in DOMAIN c.chans : b \in Bufs(c.chans[i])   \* every buffer is used
 
 Configs ==
   {c \in UNION {[kind : {kd}, be : {o = "be"}, k : KSet, widths : {ws}, rows : SeqsOf(RowSet, Len(ws)),
@@ -58,7 +67,7 @@ BufBase(c, b) == Sum([m \in 1..(b - 1) |-> c.rows[m] * c.widths[m]])
 ScalerPos(c, b, sc, q, r) == q * ChunkBytes(c) + BufBase(c, b) + r * c.widths[b] + ByteOff(c.kind, sc.off)
 
 Positions(c, i, s) ==     \* all values of scaler s of channel i in file order
-  LET ch == c.chans[i]  b == ch.buf  n == c.rows[b] IN
+  LET ch == c.chans[i]  b == ch.scalers[s].buf  n == c.rows[b] IN
   [v \in 1..(c.k * n) |-> ScalerPos(c, b, ch.scalers[s], (v - 1) \div n, (v - 1) % n)]
 
 \* truncated final chunk of `rem' bytes: buffers whole while the remainder exceeds them, the first short one keeps
@@ -80,7 +89,7 @@ Spec == Init /\ [][Next]_vars
 InBounds ==
   \A i \in DOMAIN cfg.chans : \A s \in DOMAIN cfg.chans[i].scalers :
      LET ch == cfg.chans[i]  sc == ch.scalers[s] IN
-     /\ ByteOff(cfg.kind, sc.off) + sc.sz <= cfg.widths[ch.buf]
+     /\ ByteOff(cfg.kind, sc.off) + sc.sz <= cfg.widths[sc.buf]
      /\ \A v \in DOMAIN Positions(cfg, i, s) : Positions(cfg, i, s)[v] + sc.sz <= cfg.k * ChunkBytes(cfg)
 \* a truncated final chunk yields complete rows only, never more than the full chunk has
 TruncOK == \A rem \in 1..(ChunkBytes(cfg) - 1) :
